@@ -57,11 +57,20 @@ PROPS = {
         title='Filter text and filter tree correspond',
         verus=[('u_filter', [r'^Lexer::parse_path$', r'^Parser::to_cmp_op$', r'^Lexer::greater_or_less$', r'^parse_id$', r'^parse_literal$']),
                ('u_enc', [r'^Number::to_zinc$', r'^write_quoted_str$', r'^Str::to_zinc$']),
-               ('u_fprint', [r'::fmt$', r'^lemma_op_pieces$', r'^(fp_|join_|path_text|op_text)'])],
+               ('u_fprint', [r'::fmt$', r'^lemma_op_pieces$', r'^(fp_|join_|path_text|op_text)'], dict(one_spelling=True)),
+               ('u_fgram', [r'^Parser::', r'^lemma_join_', r'^lemma_drop_last_push$'])],
         kani=[],
         witness='enum:filter-print-parse',
         design_ref='DESIGN.md section 4, C08',
-        level_text=('Proof (Verus), parser side: a path token has 1 + (number of -> consumed) segments, i.e. it '
+        level_text=('Proof (Verus), parser side, token level (u_fgram): a specification tok_or / tok_and / tok_term of the token spelling of a filter tree is '
+                    'written from the filter grammar -- an `or` is its operands separated by the token or, each operand an `and`: its terms separated by the '
+                    'token and; a group is ( or ); not path; path op literal; ^symbol; path *== ref; rel? [^term] [@ref] -- and every real parser function '
+                    '(parse, parse_or, parse_and, parse_term, parse_cmp_or_wildcard_eq, parse_parens, parse_nested_parens, parse_not, parse_cmp, '
+                    'parse_wildcard_eq, parse_rel, to_cmp_op) is proved to consume exactly the spelling of the tree it returns: whenever Parser::parse '
+                    'accepts, the tokens the lexer delivered are tok_or(tree) followed by the end of input, for every input (so `and` binds tighter than `or`, '
+                    'parentheses group, each literal is the token read). The lexer is seen through its contract there (its clauses are proved on the real '
+                    'Lexer::read in u_filter) plus two history variables: the tokens read so far and whether a read ever failed; the statement is for runs '
+                    'in which no lexical error was swallowed. Lexer side (u_filter): a path token has 1 + (number of -> consumed) segments, i.e. it '
                     'ends at the first token that is not ->, and its first segment is the identifier read; to_cmp_op maps the six '
                     'operator tokens one-to-one to the six operators and rejects everything else. Print side (u_fprint): a specification fp_or / fp_and / '
                     'fp_term of the text of a filter tree is written from the filter grammar -- operands of `or` separated by " or ", operands of `and` by '
@@ -70,11 +79,13 @@ PROPS = {
                     'WildcardEq, Relation, Path and Id are proved to write exactly that text for every tree (loops over operands by invariant, mutual recursion '
                     'by a decreases measure on the tree). Literals: a finite unit-less number '
                     'literal is printed as the Display text of exactly its f64 (no detour through an integer) and a string literal as " + enc(s) + ".'),
-        not_decided=('print-then-parse = identity as a theorem: the parser is proved panic-free and terminating with the clauses above, not against a '
-                     'token-level grammar of its own, so the two halves are joined only by the bounded enumerator enum:filter-print-parse (49 filter texts '
+        not_decided=('print-then-parse = identity as one theorem: the printer is proved against the text grammar and the parser against the token grammar; '
+                     'that lexing the printed text yields the token spelling (the lexer as a function from text to tokens) and that the token spelling '
+                     'determines the tree are not proved, so the two halves are joined by the bounded enumerator enum:filter-print-parse (49 filter texts '
                      'covering every term kind and literal kind incl. refs with display names and zoned timestamps, plus 6 precedence/grouping shapes); '
                      'core::fmt is trusted to render each format string as its literal pieces around the Display texts of the arguments; literal values '
-                     'print through the Zinc encoder (decided in u_enc); operator spelling clauses of Lexer::read.'),
+                     'print through the Zinc encoder (decided in u_enc); operator spelling clauses of Lexer::read. The printer contract pins one legal spelling '
+                     '(e.g. "( a )"): when it fails and the enumerator finds no filter for which print-then-parse fails, the outcome is undecided (exit 2), not a violation.'),
     ),
     'C19': dict(
         title='Kinds, typed accessors and grid construction are coherent',
